@@ -278,3 +278,30 @@ def runaway(model, m0):
         if not (150.0 <= t <= 600.0) or not (m <= 2.0 * m0):
             return True
     return False
+
+
+class _StepState:
+    """adapter: one reported process step seen as a flux-solver case (for the reference map of C02)"""
+
+    def __init__(self, sc, model, k):
+        self.mix, self.model = sc.mix, sc.model
+        self.t_feed, self.comp = model.feed_temperature[k], model.feed_compositions[k]
+        self.tp, self.pp = sc.tp, sc.pp
+        self.precision = sc.precision
+
+
+def non_contractive(sc, model, limit=0.9):
+    """True when, at some reported step, the permeate-composition map is not locally contractive at the reported permeate
+    composition: the fixed-point iteration then ends where two iterates happen to fall within the precision, which
+    depends on the last bit of its input; twins of such runs cannot be compared (C02 does not judge such cases either)"""
+    if sc.tp is None and (sc.pp is None or sc.pp == 0):
+        return False
+    from .monitors import c02
+
+    for k in range(len(model.time)):
+        st = _StepState(sc, model, k)
+        y = model.permeate_composition[k].p
+        p1, p2 = model.permeances[k][0].value, model.permeances[k][1].value
+        if not (c02.lipschitz(st, y, p1, p2, sc.precision) < limit):
+            return True
+    return False
